@@ -32,7 +32,7 @@ fn tampered(rng: &mut Rng, uni: &Universe, foreign: &Universe, valid: &[SignedEn
     let a_idx = uni.authors.iter().position(|a| a.id() == base.author()).unwrap();
     let kind;
     let mut acceptable = false;
-    match rng.below(24) {
+    match rng.below(27) {
         0 => {
             let i = rng.below(64);
             raw.author_sig[i] ^= 1 << rng.below(8);
@@ -169,6 +169,13 @@ fn tampered(rng: &mut Rng, uni: &Universe, foreign: &Universe, valid: &[SignedEn
             raw.author_sig = uni.authors[(a_idx + 1) % uni.authors.len()].sign(&m).to_bytes();
             kind = "author-signature-by-another-author";
         }
+        24 | 25 => {
+            // the identifier names ANOTHER document, but both signatures are made with the keys this
+            // replica trusts (own namespace secret, a known author) over exactly these bytes
+            raw.id[..32].copy_from_slice(foreign.ns.id().as_bytes());
+            raw.sign(&uni.ns, &uni.authors[a_idx]);
+            kind = "foreign-namespace-id-signed-with-own-namespace-key";
+        }
         22 => {
             // all-zero signatures
             raw.author_sig = [0; 64];
@@ -245,7 +252,10 @@ async fn one(ctx: &mut Ctx, case: u64, rng: &mut Rng) {
     iroh_docs::verif::set_clock(now);
     let mut store = Store::memory();
     store.import_namespace(Capability::Write(uni.ns.clone())).unwrap();
+    // a second document in the same store (the one foreign entries name): nothing may ever reach it
+    store.import_namespace(Capability::Write(foreign.ns.clone())).unwrap();
     let h = act::spawn(store);
+    let _ = h.open(foreign.ns.id(), OpenOpts::default()).await;
     let (tx, rx) = async_channel::unbounded::<Event>();
     if h.open(ns, OpenOpts::default().sync().subscribe(tx)).await.is_err() {
         ctx.harness_error("open failed");
@@ -418,6 +428,14 @@ async fn one(ctx: &mut Ctx, case: u64, rng: &mut Rng) {
             }
             if (metric_after - metric_before == 1) != want_ok {
                 ctx.violation(case, "inserted-counter-disagrees-with-acceptance", detail(json!({"delta": metric_after - metric_before})));
+                break;
+            }
+        }
+        // 3b. nothing was written into the neighbouring document
+        match act::dump(&h, foreign.ns.id()).await {
+            Ok(v) if v.is_empty() => {}
+            other => {
+                ctx.violation(case, &format!("entry-written-into-another-document[{path}]"), detail(json!({"other_document_entries": other.map(|v| v.len()).unwrap_or(0)})));
                 break;
             }
         }
